@@ -609,7 +609,7 @@ impl Check for C09 {
     fn assumptions(&self) -> Vec<&'static str> {
         vec![
             "reciprocal and chained rates are compared with relative tolerance 1e-18 (okane stores reciprocals as 28-digit quotients)",
-            "DONT_CARE: two different prices for one pair on one date; 'least stale' read as max or as sum over steps (both admitted); what an unreadable price DB should do (error or fallback are both recorded as probes)",
+            "two or three different prices for one pair on one date count as parallel steps of equal rank (any of them may be used); DONT_CARE: more than three such prices; 'least stale' read as max or as sum over steps (both admitted); what an unreadable price DB should do (error or fallback are both recorded as probes)",
         ]
     }
 }
